@@ -623,6 +623,9 @@ _SEED_RULE = {
     "C01-dedup-threshold-before-merge": "split-order", "C02-composer-factor-per-basis-set": "layout", "C03-canonicalise-always-switches-direction": "sweep-centre",
     "C07-edof-rdm-transposed": "observable-cache", "C09-taylor-adaptive-scales-in-place": "adaptive-reject", "C11-moveaxis-sibling-label-order": "decomposition-axes",
     "C12-get-qnmat-parent-label-order": "decomposition-axes", "C13-add-leaves-other-prefactor": "effect-bound",
+    "C01-offset-unit-ignored": "offset-sign", "C03-add-folds-relative-prefactor": "prefactor", "C06-hartree-guard-wrong-axis": "sector-constructor",
+    "C08-eigh-qn-skips-negative-partner": "eigh-blocks", "C12-0site-skipped-for-1x1-bond": "local-step", "C14-ttns-load-drops-coeff-with-user-attrs": "tree-round-trip",
+    "C15-squeeze-identity-drops-factor": "factor-algebra", "C19-fehlberg5-last-row-swapped": "order-condition",
 }
 _sd = _os.path.join(_V, "seeded")
 for _name in sorted(_os.listdir(_sd)):
